@@ -381,7 +381,7 @@ def esf_of(ev, runner, obs_name):
 
 
 # ---- folding a per-point result ------------------------------------------------
-def _closure_signature(fv):
+def _closure_signature(fv, _depth=0):
     """Canonical text of the numeric state a kernel closure captured (distinguishes charm from bottom...)."""
     items = []
     seen = set()
@@ -389,6 +389,12 @@ def _closure_signature(fv):
     depth = 0
     while e is not None and depth < 4:
         for k, v in e.vars.items():
+            if isinstance(v, (S.FuncVal, S.PartialVal, S.ClassVal)) and v is not fv:
+                try:
+                    items.append(f"{k}={callable_key(v, _depth + 1)}")  # a captured function selects what the kernel computes
+                except Undecided:
+                    pass
+                continue
             v = S.num_norm(v)
             if isinstance(v, (int, Fraction, A.Rat)) and not isinstance(v, bool):
                 items.append(f"{k}={A.canon(v)}")
@@ -406,6 +412,43 @@ def _closure_signature(fv):
     return ";".join(sorted(set(items)))
 
 
+def _state_signature(obj):
+    items = []
+    for k, v in sorted(obj.attrs.items()):
+        v = S.num_norm(v)
+        if isinstance(v, (int, Fraction, A.Rat)) and not isinstance(v, bool):
+            items.append(f"{k}={A.canon(v)}")
+        elif isinstance(v, (str, bool)):
+            items.append(f"{k}={v!r}")
+    return ";".join(items)
+
+
+def callable_key(f, _depth=0):
+    """A name for a callable that depends only on what it is made of (function, captured numbers and functions, bound state, partial
+    arguments) - the same in every fold of the same tree, never an address.  Unknown kinds of callables are undecided."""
+    if _depth > 4:
+        return "..."
+    if isinstance(f, S.PartialVal):
+        inner = callable_key(f.func, _depth + 1)
+        args = [A.canon(S.num_norm(x)) if isinstance(S.num_norm(x), (int, Fraction, A.Rat)) and not isinstance(x, bool) else
+                (repr(x) if isinstance(x, (str, bool)) or x is None else (callable_key(x, _depth + 1) if isinstance(x, (S.FuncVal, S.PartialVal, S.ClassVal)) else type(x).__name__))
+                for x in f.args]
+        kws = [f"{k}=" + (A.canon(S.num_norm(v)) if isinstance(S.num_norm(v), (int, Fraction, A.Rat)) and not isinstance(v, bool) else
+                          (repr(v) if isinstance(v, (str, bool)) or v is None else (callable_key(v, _depth + 1) if isinstance(v, (S.FuncVal, S.PartialVal, S.ClassVal)) else type(v).__name__)))
+               for k, v in sorted(f.keywords.items())]
+        return f"partial({inner};{_short_hash(','.join(args + kws))})"
+    if isinstance(f, S.FuncVal):
+        sig = _closure_signature(f, _depth) if f.closure is not None else ""
+        if f.bound is not None and isinstance(f.bound, S.ObjVal):
+            sig = (sig + "|" if sig else "") + "self:" + _state_signature(f.bound)
+        return f.finfo.fq + (f"{{{_short_hash(sig)}}}" if sig else "")
+    if isinstance(f, S.ClassVal):
+        return f.cinfo.fq
+    if isinstance(f, S.ObjVal) and f.cinfo is not None and f.cinfo.find_method("__call__") is not None:
+        return f"{f.cinfo.fq}(){{{_short_hash(_state_signature(f))}}}"
+    raise Undecided(f"identity of a kernel that is a {type(f).__name__}")
+
+
 def rsl_key(rsl):
     parts = []
     for p in ("reg", "sing", "loc"):
@@ -413,13 +456,15 @@ def rsl_key(rsl):
         if f is None:
             parts.append("-")
             continue
-        if isinstance(f, S.FuncVal):
+        if isinstance(f, S.FuncVal) and f.bound is None:
             sig = _closure_signature(f) if f.closure is not None else ""
             args = rsl.attrs["args"][p]
             a = ",".join(A.canon(S.num_norm(x)) for x in (args.data if isinstance(args, S.Arr) else []))
             parts.append(f"{f.finfo.fq}[{a}]" + (f"{{{_short_hash(sig)}}}" if sig else ""))
         else:
-            parts.append(repr(f))
+            args = rsl.attrs["args"][p]
+            a = ",".join(A.canon(S.num_norm(x)) for x in (args.data if isinstance(args, S.Arr) else []))
+            parts.append(f"{callable_key(f)}[{a}]")
     owner = rsl.attrs.get("_owner")
     return "|".join(parts) + (f"@{owner}" if owner else "")
 
@@ -507,6 +552,19 @@ def _convolution(ev, rsl, x, pdf_func):
     RSL_REGISTRY[key] = rsl
     j = pdf_func.attrs.get("poly_number")
     return (A.opaque("conv", (key, S.num_norm(x), j)), A.opaque("converr", (key, S.num_norm(x), j), positive=True))
+
+
+def manager(runner, name):
+    """runner.configs.managers[name], whether the bundle is a dict or an object with the managers as attributes (a mapping-like record)."""
+    m = runner.attrs["configs"].attrs["managers"]
+    if isinstance(m, dict):
+        return m[name]
+    if isinstance(m, S.ObjVal):
+        if name in m.attrs:
+            return m.attrs[name]
+        if name in m.store:
+            return m.store[name]
+    raise Undecided(f"the runner's managers bundle is a {type(m).__name__} without an entry {name!r}")
 
 
 def install_result_summaries(ev):
